@@ -212,17 +212,15 @@ Results(l, f) == [k \in 1..Len(l.S) |-> ReadAs(f, l.S[k].n)]
 Ideals(l)     == [k \in 1..Len(l.S) |-> Ideal(Geo, l.S[k].n, l.S[k].len)]
 
 \* C13: whatever the layout, every stream reads back byte-exact
-Refines == done => Results(lay, FileOf(lay, place)) = Ideals(lay)
+RefinesF(f, res) == res = Ideals(lay)
 
 \* a name that is not in the file is not found (and unused entries never match)
-NotFound == done => ReadAs(FileOf(lay, place), "nosuchstream").err = "StreamNotFound"
+NotFoundF(f) == ReadAs(f, "nosuchstream").err = "StreamNotFound"
 
 \* sanity of the writer itself ([MS-CFB] 2.3): FAT sectors are marked, every chain is marked
 \* to its end, nothing else is allocated
-WriterLegal ==
-  done =>
-    LET f == FileOf(lay, place)
-        us == Units(lay)
+WriterLegalF(f) ==
+    LET us == Units(lay)
         fats == FlatWords(f, [k \in 1..NFat(lay) |-> At(us, place, [k |-> "fat", o |-> "", i |-> k - 1])], 1)
     IN /\ \A id \in 0..(NSect - 1) :
             LET s == f.sec[id + 1]
@@ -232,19 +230,28 @@ WriterLegal ==
        /\ \A id \in NSect..(Len(fats) - 1) : fats[id + 1] = FREESECT
        /\ f.hdr.fatLen * Geo.eps >= NSect
 
-Dump ==
-  done =>
-    LET f == FileOf(lay, place)
-        us == Units(lay)
+DumpF(f, res) ==
+    LET us == Units(lay)
     IN PrintT(<<"REPLAY", ToJson(
          [ver |-> lay.ver, streams |-> lay.S, dir |-> lay.dir, mslot |-> lay.mslot,
           nmini |-> NMini(lay), nfat |-> NFat(lay), nmf |-> NMf(lay), ndir |-> NDir(lay),
           ndifat |-> NDifat(lay), nsect |-> NSect, geo |-> Geo, hd |-> HD,
           units |-> [k \in 1..Len(us) |-> [k |-> us[k].k, o |-> us[k].o, i |-> us[k].i, at |-> place[k]]],
           hdr |-> f.hdr,
-          asis |-> [k \in 1..Len(lay.S) |->
-                      LET r == ReadAs(f, lay.S[k].n) IN IF r.err = "" THEN "ok" ELSE r.err],
+          asis |-> [k \in 1..Len(lay.S) |-> IF res[k].err = "" THEN "ok" ELSE res[k].err],
           dev |-> {}])>>)
+
+Why(name) == PrintT(<<"WHY", name>>) /\ FALSE
+
+\* one invariant so that the file and the reads are computed once per layout; the REPLAY line is
+\* printed first, a WHY line names the conjunct that failed
+Refines ==
+  done => LET f   == TLCEval(FileOf(lay, place))
+              res == TLCEval(Results(lay, f))
+          IN /\ DumpF(f, res)
+             /\ RefinesF(f, res) \/ Why("Refines: a stream does not read back byte-exact")
+             /\ NotFoundF(f) \/ Why("NotFound")
+             /\ WriterLegalF(f) \/ Why("WriterLegal: the writer model produced an illegal layout")
 
 --------------------------------------------------------------------------
 (* configurations (record/sequence constants cannot be written in a cfg file) *)
@@ -256,8 +263,9 @@ St(n, len) == [n |-> n, len |-> len]
 SS_perm == {<<St("Workbook", 5)>>, <<St("Workbook", 4), St("B", 1)>>, <<St("Workbook", 9)>>,
             <<St("Workbook", 3), St("C", 2)>>}
 SS_dir  == {<<St("Workbook", 4), St("B", 1), St("C", 0)>>}
+SS_dir2 == {<<St("Workbook", 4), St("B", 1)>>, <<St("Workbook", 1), St("B", 5)>>}
+SS_difat3 == {<<St("Workbook", 4)>>, <<St("Workbook", 5), St("B", 1)>>}
 SS_difat == {<<St("Workbook", 4)>>, <<St("Workbook", 3)>>}
 SS_thor == {<<St("Workbook", 5), St("B", 3), St("C", 0)>>, <<St("Workbook", 8), St("B", 4)>>,
-            <<St("Workbook", 3), St("B", 3)>>, <<St("Workbook", 9), St("B", 2)>>,
-            <<St("Workbook", 2), St("B", 1), St("C", 1)>>}
+            <<St("Workbook", 3), St("B", 2)>>, <<St("Workbook", 9), St("B", 2)>>}
 =============================================================================
